@@ -433,7 +433,8 @@ pub fn check(spec: &PropSpec, tier: &str) -> i32 {
     }
     for p in spec.required_probes {
         let v = agg.probes.get(*p).or_else(|| agg.faults.get(*p)).or_else(|| agg.events.get(*p)).copied().unwrap_or(0);
-        if v == 0 && runs >= crate::props::runs(spec, "quick") {
+        // only meaningful when the batch ran to the end (the wall-clock cap cuts the later sub-batches)
+        if v == 0 && runs >= crate::props::runs(spec, "quick") && !res.capped {
             harness_errors.push(format!("reach probe '{p}' stayed at zero: the workload or fault mix does not reach what this property depends on"));
         }
     }
